@@ -156,7 +156,7 @@
   (local.set $len (array.len (local.get $p0)))
   (block $B0
     ;; check empty string
-    (block $B0 (br_if $B0 (local.get $len)))
+    (br_if $B0 (i32.eqz (local.get $len)))
     ;; if first character is -, then neg = 1
     (local.set $neg
       (i32.eq
